@@ -1202,87 +1202,89 @@ Proof.
 Qed.
 (* ------------------------------------------------------------------ the python-tag score separates tags *)
 
-(* cp / py tags with a one-digit major and a minor below 16: the score is injective (finite sweep
-   over the 2 * 10 * 16 tags, lifted by NoDup); beyond minor 15 the minor's bits run into the major's *)
-Definition score_domain : list (bool * N * N) :=
-  flat_map (fun i => flat_map (fun M => map (fun m => (i, M, m)) (map N.of_nat (seq 0 16)))
-                              (map N.of_nat (seq 0 10))) [true; false].
+(* _py_version_score = impl_score | major << 28 | minor << 16 (fix C20-4-py-score-minor-bits): for cp / py
+   tags with a one-digit major and a minor below 4096 the three fields occupy disjoint bits, so the score
+   is injective *)
+Lemma gen_shifts : shift_major = 28%Z /\ shift_minor = 16%Z.
+Proof. split; reflexivity. Qed.
+Lemma gen_impl_scores : assoc "cp" impl_score_defaults = Some 65535%Z /\ assoc "py" impl_score_defaults = Some 0%Z.
+Proof. split; reflexivity. Qed.
+
+Lemma land_low_shiftl a b n : (0 <= n)%Z -> (0 <= a < 2 ^ n)%Z -> Z.land a (Z.shiftl b n) = 0%Z.
+Proof.
+  intros Hn Ha. apply Z.bits_inj'. intros i Hi. rewrite Z.land_spec, Z.bits_0.
+  destruct (Z.lt_ge_cases i n) as [L|G].
+  - rewrite (Z.shiftl_spec_low b n i L). apply andb_false_r.
+  - assert (Z.testbit a i = false) as ->; [|reflexivity].
+    destruct (Z.eq_dec a 0) as [->|Hne]; [apply Z.bits_0|].
+    apply Z.bits_above_log2; [lia|]. assert (Z.log2 a < n)%Z by (apply Z.log2_lt_pow2; lia). lia.
+Qed.
+Lemma lor_disjoint a b : Z.land a b = 0%Z -> Z.lor a b = (a + b)%Z.
+Proof. intros H. rewrite <- (Z.lxor_lor _ _ H). symmetry. apply Z.add_nocarry_lxor. exact H. Qed.
+
+Lemma score_arith (is M m : Z) :
+  (0 <= is < 65536)%Z -> (0 <= m < 4096)%Z -> (0 <= M)%Z ->
+  Z.lor (Z.lor is (Z.shiftl M 28)) (Z.shiftl m 16) = (is + m * 65536 + M * 268435456)%Z.
+Proof.
+  intros His Hm HM.
+  rewrite <- Z.lor_assoc, (Z.lor_comm (Z.shiftl M 28)), Z.lor_assoc.
+  rewrite (lor_disjoint is (Z.shiftl m 16)) by (apply land_low_shiftl; lia).
+  rewrite (Z.shiftl_mul_pow2 m 16) by lia. change (2 ^ 16)%Z with 65536%Z.
+  rewrite lor_disjoint by (apply land_low_shiftl; [lia|change (2 ^ 28)%Z with 268435456%Z; lia]).
+  rewrite (Z.shiftl_mul_pow2 M 28) by lia. reflexivity.
+Qed.
+
 Definition dom_tag (x : bool * N * N) : string :=
   let '(i, M, m) := x in if i then py_tag "c" "p" M (Some m) else py_tag "p" "y" M (Some m).
-Definition res_Z_eqb (a b : res Z) : bool :=
-  match a, b with Ok x, Ok y => Z.eqb x y | _, _ => false end.
-Fixpoint all_distinct (l : list (res Z)) : bool :=
-  match l with [] => true | a :: t => negb (existsb (res_Z_eqb a) t) && all_distinct t end.
 
-Lemma all_distinct_NoDup l : all_distinct l = true -> (forall a, In a l -> exists z, a = Ok z) -> NoDup l.
+Lemma py_score_formula (i : bool) M m :
+  (M <= 9)%N -> (m < 4096)%N ->
+  py_version_score (dom_tag (i, M, m))
+  = Ok ((if i then 65535 else 0) + Z.of_N m * 65536 + Z.of_N M * 268435456)%Z.
 Proof.
-  induction l as [|a t IH]; cbn; [constructor|]. intros H Hok. apply andb_true_iff in H as [H1 H2].
-  constructor; [|apply IH; auto].
-  intros Hin. destruct (Hok a) as (z & ->); auto.
-  apply negb_true_iff in H1. rewrite <- not_true_iff_false in H1. apply H1.
-  apply existsb_exists. exists (Ok z). split; auto. cbn. apply Z.eqb_refl.
-Qed.
-
-Lemma score_domain_distinct : all_distinct (map (fun x => py_version_score (dom_tag x)) score_domain) = true.
-Proof. vm_compute. reflexivity. Qed.
-Lemma score_domain_ok a : In a (map (fun x => py_version_score (dom_tag x)) score_domain) -> exists z, a = Ok z.
-Proof.
-  assert (forallb (fun a => match a with Ok _ => true | Err _ => false end)
-                  (map (fun x => py_version_score (dom_tag x)) score_domain) = true) as H by (vm_compute; reflexivity).
-  rewrite forallb_forall in H. intros Hin. specialize (H _ Hin). destruct a; [eauto|discriminate].
-Qed.
-
-Lemma in_score_domain i M m : (M <= 9)%N -> (m <= 15)%N -> In (i, M, m) score_domain.
-Proof.
-  intros HM Hm. unfold score_domain. apply in_flat_map. exists i. split; [destruct i; cbn; auto|].
-  apply in_flat_map. exists M. split.
-  - apply in_map_iff. exists (N.to_nat M). split; [lia|]. apply in_seq. lia.
-  - apply in_map_iff. exists m. split; auto. apply in_map_iff. exists (N.to_nat m). split; [lia|]. apply in_seq. lia.
-Qed.
-
-Lemma map_inj_nodup {A B} (f : A -> B) l x y : NoDup (map f l) -> In x l -> In y l -> f x = f y -> x = y.
-Proof.
-  induction l as [|a l IH]; cbn; [tauto|]. intros ND Hx Hy E. inversion ND as [|? ? Hn ND']; subst.
-  destruct Hx as [->|Hx], Hy as [->|Hy]; auto.
-  - exfalso. apply Hn. rewrite E. apply in_map; auto.
-  - exfalso. apply Hn. rewrite <- E. apply in_map; auto.
+  intros HM Hm. unfold py_version_score, dom_tag.
+  destruct i; rewrite impl_major_minor_render by (auto; reflexivity).
+  - rewrite (proj1 gen_impl_scores), (proj1 gen_shifts), (proj2 gen_shifts). f_equal. apply score_arith; lia.
+  - rewrite (proj2 gen_impl_scores), (proj1 gen_shifts), (proj2 gen_shifts). f_equal. apply score_arith; lia.
 Qed.
 
 Lemma py_score_injective i M m i' M' m' :
-  (M <= 9)%N -> (m <= 15)%N -> (M' <= 9)%N -> (m' <= 15)%N ->
+  (M <= 9)%N -> (m < 4096)%N -> (M' <= 9)%N -> (m' < 4096)%N ->
   py_version_score (dom_tag (i, M, m)) = py_version_score (dom_tag (i', M', m')) ->
   (i, M, m) = (i', M', m').
 Proof.
-  intros. eapply (map_inj_nodup (fun x => py_version_score (dom_tag x)) score_domain); eauto using in_score_domain.
-  apply all_distinct_NoDup; [apply score_domain_distinct|apply score_domain_ok].
+  intros HM Hm HM' Hm'. rewrite !py_score_formula by assumption. intros H. inversion H as [H'].
+  assert (i = i' /\ M = M' /\ m = m') as (-> & -> & ->); [|reflexivity].
+  destruct i, i'; repeat split; try lia.
 Qed.
 
-(* full statement: injective for every minor - false from minor 16 on (3.16 collides with 3.0) *)
+(* full statement: injective for every minor - false only from minor 4096 on, which no CPython will reach *)
 Definition py_score_injective_full_statement : Prop :=
   forall i M m i' M' m', (M <= 9)%N -> (M' <= 9)%N ->
   py_version_score (dom_tag (i, M, m)) = py_version_score (dom_tag (i', M', m')) -> (i, M, m) = (i', M', m').
+Lemma py_score_injective_full_statement_false : ~ py_score_injective_full_statement.
+Proof.
+  intros F. specialize (F true 3%N 4096%N true 3%N 0%N). cbn [dom_tag] in F.
+  assert ((true, 3%N, 4096%N) = (true, 3%N, 0%N)) as E; [apply F; try lia; vm_compute; reflexivity|].
+  inversion E.
+Qed.
 
+(* the witnesses of the former py_score_minor16_refuted (corpus/C20/minor16-score.json), now resolved *)
 Definition r316 : raw := mkRaw 3 16 true true (Some (2, 36)%N) "x86_64".
 Definition w_cp316 : cand := wheel_cand 1 v10 "" "cp316" "none" "any" "x-1.0-cp316-none-any.whl".
 Definition w_cp30 : cand := wheel_cand 2 v10 "" "cp30" "none" "any" "x-1.0-cp30-none-any.whl".
 
-Lemma py_score_minor16_refuted :
-  py_version_score "cp316" = py_version_score "cp30"
+Example py_score_minor16_resolved :
+  py_version_score "cp316" <> py_version_score "cp30"
   /\ eligible (cfg_of r316) w_cp316 = true /\ eligible (cfg_of r316) w_cp30 = true
   /\ sort_candidates (cfg_of r316) [w_cp316; w_cp30] = Ok [w_cp316; w_cp30]
-  /\ sort_candidates (cfg_of r316) [w_cp30; w_cp316] = Ok [w_cp30; w_cp316].
-Proof. repeat split; vm_compute; reflexivity. Qed.
+  /\ sort_candidates (cfg_of r316) [w_cp30; w_cp316] = Ok [w_cp316; w_cp30].
+Proof. split; [vm_compute; discriminate|]. repeat split; vm_compute; reflexivity. Qed.
 
-Lemma py_score_injective_full_statement_false : ~ py_score_injective_full_statement.
-Proof.
-  intros F. specialize (F true 3%N 16%N true 3%N 0%N). cbn [dom_tag] in F.
-  assert ((true, 3%N, 16%N) = (true, 3%N, 0%N)) as E; [apply F; try lia; vm_compute; reflexivity|].
-  inversion E.
-Qed.
 (* ------------------------------------------------------------------ the tag sets are sets: iteration order *)
 
-(* the model is handed the Python sets in their iteration order; apart from the "any" reset (refuted
-   above) that order is irrelevant *)
+(* the model is handed the Python sets in their iteration order; that order is irrelevant (the "any"
+   reset that made it matter was repaired: C20-2-any-platform-no-reset) *)
 Definition score_val (s : string) : Z := match py_version_score s with Ok v => v | Err _ => 0%Z end.
 Definition score_ok (s : string) : bool := match py_version_score s with Ok _ => true | Err _ => false end.
 
@@ -1355,13 +1357,13 @@ Qed.
 
 Lemma tag_score_set_order_free c k k' l l' :
   k_py k = Some l -> k_py k' = Some l' -> Permutation l l' ->
-  Permutation (k_plats k) (k_plats k') -> ~ In "any" (k_plats k) ->
+  Permutation (k_plats k) (k_plats k') ->
   k_abi k' = k_abi k -> k_filename k' = k_filename k ->
   tag_score c k' = tag_score c k.
 Proof.
-  intros E E' P Pp Hany Ea Ef. unfold tag_score. rewrite E, E', Ea, Ef.
+  intros E E' P Pp Ea Ef. unfold tag_score. rewrite E, E', Ea, Ef.
   rewrite (wheel_tags_score_perm _ _ P).
-  rewrite (platform_order_irrelevant_without_any c _ _ Pp Hany). reflexivity.
+  rewrite (plat_score_perm c _ _ Pp). reflexivity.
 Qed.
 
 Lemma eligible_set_order_free c k k' l l' :
@@ -1497,7 +1499,6 @@ Qed.
 Lemma supported_file_eligible r t id v name ver build pyf abif platf :
   field_ok name -> field_ok ver -> field_ok build -> field_ok pyf -> field_ok abif -> field_ok platf ->
   wf_raw r = true -> In t (sys_tags r) ->
-  (legacy_arch (r_arch r) = true \/ is_legacy_name (snd t) = false) ->
   wheel_has_tag pyf abif platf t ->
   exists k, wheel_cand_of_filename id v (wheel_filename name ver build pyf abif platf) = Some k
             /\ k_extra k = build /\ eligible (cfg_of r) k = true.
